@@ -8,7 +8,7 @@ pops a choice point. Contents of answers are not decided.
 """
 import re
 
-from .core import AnchorLost, CFG, callee_of, hir_calls, matches_in, pat_variant, res_name, short, walk
+from .core import AnchorLost, CFG, callee_of, hir_calls, matches_in, pat_leaves, pat_variant, res_name, short, walk
 from . import orframe
 
 EXPLANATION = (
@@ -182,6 +182,34 @@ def run(ctx, R):
     R.ob("C28:drop:forgets-every-cleanup-block-above-the-stub", pops_in_loop,
          "Drop removes at most one cont_pts entry: with two nested, still pending setup_call_cleanup/3 calls in an abandoned query the outer entry survives and its cleanup "
          "runs at the first cut of the next query", F.where(dr))
+    # ... and the block restored is the one that was current before the LOWEST discarded entry was installed: either the
+    # assignment sits in the loop that pops from the top (its last execution is for the lowest entry), or its value is
+    # taken from the first discarded entry. The top entry's prev_block is the next lower DISCARDED entry's own block.
+    def is_cont(e):
+        return any(y.get("k") == "Field" and y.get("name") == "cont_pts" for y in walk(e))
+    lowest = True
+    why = ""
+    for asg in [x for x in walk(dh["body"]) if x["k"] == "Assign" and orframe.field_chain(x["lhs"])[-1:] == ["scc_block"]]:
+        in_pop_loop = any(lp["k"] == "Loop" and any(y is asg for y in walk(lp)) and
+                          any(x["k"] == "MethodCall" and x["name"] == "pop" and is_cont(x["recv"]) for x in walk(lp)) for lp in walk(dh["body"]))
+        if in_pop_loop:
+            continue
+        # the value's source: the LetCond / Let / Match that binds the local it reads
+        src = None
+        if asg["rhs"]["k"] == "Path" and "local" in asg["rhs"].get("res", {}):
+            nm = asg["rhs"]["res"]["local"]
+            for x in walk(dh["body"]):
+                if x["k"] in ("LetCond", "Let") and "init" in x and nm in [l.get("name") for l in walk(x["pat"]) if l.get("k") == "PBind"]:
+                    src = x["init"]
+        if src is None or not is_cont(src):
+            lowest, why = False, "the value stored is not read from cont_pts in a recognised way"
+            continue
+        picks = [y["name"] for y in walk(src) if y["k"] == "MethodCall" and y["name"] in ("last", "next_back", "rev", "pop", "first", "get", "next", "nth")]
+        if any(nm in ("last", "next_back", "rev", "pop") for nm in picks) or not (picks or any(y["k"] == "Index" for y in walk(src))):
+            lowest, why = False, "the value stored comes from the top discarded entry (%s)" % ",".join(picks)
+    R.ob("C28:drop:block-restored-is-the-one-below-the-lowest-discarded-entry", lowest,
+         "Drop restores scc_block outside the popping loop and %s: with two nested, still pending setup_call_cleanup/3 calls in an abandoned query scc_block is left "
+         "pointing at the inner discarded frame and the next query that throws unwinds to it" % why, F.where(dr))
     R.ob("C28:drop:forgets-cleanup-blocks-of-discarded-frames", touches_cont and resets_scc,
          "Drop must pop the cont_pts entries installed above this query's stub and restore scc_block: after taking one answer of setup_call_cleanup(true, member(X,[1,2,3]), true) "
          "and dropping the iterator, run_query(\"throw(b).\") panics in Stack::index_or_frame", F.where(dr))
